@@ -348,6 +348,11 @@ FIXED = [
     for n in ("a.txt", "bb.txt", "c c.dat", "noext", "d.txt") for (m, t, r) in (("name", "x%Name()", False), ("path", "moved/%Name()", True))
     if r or n != "d.txt"          # sub/d.txt is selected only with --recursive
 ] + [
+    # a tag in a pipe list cannot have its own context - whichever position it has in the list
+    {"mode": "name", "template": "%Name()|%Upper()|%Lower(){x}", "mutated": "piped tag with own context", "expect": 3},
+    {"mode": "name", "template": "%Name()|%Upper()|%Lower()|%Trim(2,left){x}|%Upper()", "mutated": "piped tag with own context", "expect": 3},
+    {"mode": "name", "template": "x%Name()", "filter": "%Name()|%Upper()|%Lower(){x} != ''", "mutated": "piped tag with own context", "expect": 3},
+    {"mode": "name", "template": "x%Name()", "sort": "%Name()|%Lower()|%Upper(){y}", "mutated": "piped tag with own context", "expect": 3},
     # argument VALUES a tag refuses (an invalid regular expression, an unknown unit ...): refused when the template is compiled
     {"mode": "name", "template": "%Replace('(', '_'){%Name()}", "mutated": "invalid argument value", "expect": 3},
     {"mode": "name", "template": "%Remove('[a-'){%Name()}", "mutated": "invalid argument value", "expect": 3},
